@@ -17,7 +17,9 @@ import random
 from . import ast as A
 
 PROFILES = ["bitfield", "array", "payload", "optional", "inherit", "enum", "groups", "small",
-            "mix", "structs", "hostile"]
+            "mix", "structs", "hostile", "matrix"]
+# descriptions per unit of n_per_profile (the matrix profile has four fixed parts)
+PROFILE_MULT = {"matrix": 2}
 
 SCALAR_WIDTHS = [1, 2, 3, 4, 5, 7, 8, 8, 9, 12, 15, 16, 16, 17, 23, 24, 24, 25, 31, 32, 32, 33, 40,
                  47, 48, 55, 56, 57, 63, 64]
@@ -30,9 +32,10 @@ ODD_NAMES = ["enumx", "packet_", "structure", "groupie", "testy", "iff", "custom
 
 
 class Ctx:
-    def __init__(self, rng, profile):
+    def __init__(self, rng, profile, index=0):
         self.rng = rng
         self.profile = profile
+        self.index = index
         self.decls = []
         self.n = 0
         self.features = set()
@@ -353,8 +356,9 @@ def fill_item(ctx, b, depth, static_only=False):
         b.random_bits(1)
 
 
-def add_array(ctx, b, depth, shapes, elems, allow_pad=True, hostile=False, allow_es=True):
-    """Append header field(s) + an array field (+ padding)."""
+def add_array(ctx, b, depth, shapes, elems, allow_pad=True, hostile=False, allow_es=True, es_force=None,
+              pad_force=None):
+    """Append header field(s) + an array field (+ padding). es_force / pad_force: None = random."""
     rng = ctx.rng
     aid = ctx.fid()
     shape = rng.choice(shapes)
@@ -378,6 +382,8 @@ def add_array(ctx, b, depth, shapes, elems, allow_pad=True, hostile=False, allow
     elif elem == "dynamic":
         type_id = some_struct(ctx, "dynamic", depth)
         es = allow_es and rng.random() < 0.35
+        if es_force is not None:
+            es = es_force
     elif elem == "greedy":
         type_id = some_struct(ctx, "greedy", depth)
         es = True
@@ -404,7 +410,8 @@ def add_array(ctx, b, depth, shapes, elems, allow_pad=True, hostile=False, allow
     if shape == "static":
         size = rng.choice([1, 2, 3, 4, 5, 8, 16, 31, 32]) if elem in ("u8", "scalar", "enum") else rng.choice([1, 2, 3, 4])
     b.fields.append(A.array(aid, width=width, type_id=type_id, size=size))
-    if allow_pad and shape in ("count", "size", "static") and rng.random() < 0.3:
+    want_pad = (rng.random() < 0.3) if pad_force is None else pad_force
+    if allow_pad and shape in ("count", "size", "static") and want_pad:
         if shape == "static" and elem_static_bytes is not None:
             pad = size * elem_static_bytes + rng.choice([0, 1, 3, 8])
         else:
@@ -644,6 +651,9 @@ def p_inherit(ctx, struct_tree=False):
                 eid, w = some_enum(ctx, maxw=32)
                 b.ensure_room(w)
                 b.add_bits(A.typedef(ctx.fid(), eid), w)
+        if rng.random() < 0.3:
+            # optional fields in a parent: the flag must survive specialization and conversions
+            add_optional(ctx, b, 1, n=rng.randint(1, 2))
         sized = add_payload(ctx, b, body=rng.random() < 0.25)
         if rng.random() < 0.4:
             trailing_static(ctx, b, 1)
@@ -930,18 +940,63 @@ def p_mix(ctx):
         p_inherit(ctx)
 
 
+def p_matrix(ctx):
+    """Systematic rather than random: one declaration per (element kind x array shape) cell, in four
+    parts chosen by the description index so that every backend sees the cells it supports:
+    0 scalar-like elements, 1 struct elements, 2 padded arrays, 3 element-size fields and custom
+    elements. Guarantees that even the quick tier drives every array arm of every generator."""
+    rng = ctx.rng
+    part = ctx.index % 4
+
+    def one(el, sh, pad=False, es=None):
+        b = Body(ctx)
+        b.maybe_noise(0.3)
+        add_array(ctx, b, 0, shapes=[sh], elems=[el], allow_pad=pad, pad_force=pad, es_force=es)
+        if sh != "unknown" and rng.random() < 0.3:
+            trailing_static(ctx, b, 1)
+        b.align()
+        kind = A.struct if rng.random() < 0.25 else A.packet
+        ctx.decls.append(kind(ctx.uid("P"), b.fields))
+
+    shapes = ["static", "count", "size", "unknown"]
+    if part == 0:
+        for el in ("u8", "scalar", "enum"):
+            for sh in shapes:
+                one(el, sh)
+    elif part == 1:
+        for el in ("static", "dynamic"):
+            for sh in shapes:
+                one(el, sh, es=False)
+    elif part == 2:
+        for el in ("u8", "scalar", "enum", "static", "dynamic"):
+            for sh in shapes[:3]:
+                one(el, sh, pad=True, es=False)
+    else:
+        for el in ("dynamic", "greedy"):
+            for sh in shapes:
+                one(el, sh, es=True)
+        for sh in ("count", "size"):
+            one("dynamic", sh, pad=True, es=True)
+        for sh in shapes:
+            one("custom", sh)
+
+
 PROFILE_FN = {
     "bitfield": p_bitfield, "array": p_array, "payload": p_payload, "optional": p_optional,
     "inherit": lambda c: (p_inherit(c), p_size_children(c) if c.rng.random() < 0.6 else None),
     "enum": p_enum, "groups": p_groups, "small": p_small, "mix": p_mix, "structs": p_structs,
-    "hostile": p_hostile,
+    "hostile": p_hostile, "matrix": p_matrix,
 }
 
 
 def generate(seed, profile, endianness=A.LE, shuffle=True):
     """-> {'file', 'features', 'profile', 'seed'}"""
     rng = random.Random("%s/%s" % (seed, profile))
-    ctx = Ctx(rng, profile)
+    try:
+        index = int(str(seed).rsplit(".", 1)[-1])
+    except ValueError:
+        index = 0
+    ctx = Ctx(rng, profile, index)
     PROFILE_FN[profile](ctx)
     decls = ctx.decls
     if shuffle and rng.random() < 0.5:
